@@ -108,7 +108,8 @@ def gen_field(rng, i, names, rich=True, for_function=False):
     if rng.random() < 0.3:
         f["alias"] = name.upper() + "a" if rng.random() < 0.5 else name + "_al"
     if rng.random() < 0.3:
-        f["alias_from"] = rng.sample([name + "_x", name.upper() + "Y", name + "-z", "@" + name], rng.choice([1, 1, 2]))
+        # ("straße<k>": a non-ASCII spelling whose casefold() differs from its lower())
+        f["alias_from"] = rng.sample([name + "_x", name.upper() + "Y", name + "-z", "@" + name, "straße" + name[-1]], rng.choice([1, 1, 2]))
     if rng.random() < 0.2:
         f["case_insensitive"] = rng.choice([True, True, False])
     if not for_function:
@@ -319,10 +320,16 @@ def spellings(f, decl):
     ci = f["case_insensitive"] if f["case_insensitive"] is not None else bool(decl["options"].get("case_insensitive"))
     variants = []
     for s in acc:
-        for v in (s.upper(), s.lower(), s.swapcase()):
-            if v not in acc and v not in variants:
+        for v in (s.upper(), s.lower(), s.swapcase(), _upper_1to1(s), s[:1].upper() + s[1:]):
+            # a letter-case variant is a key that lower-cases to the same text ('STRASSE' is not one of 'straße')
+            if v not in acc and v not in variants and v.lower() == s.lower():
                 variants.append(v)
     return acc, variants, ci
+
+
+def _upper_1to1(s):
+    """upper-case the characters whose upper case is one character that lower-cases back ('straße' -> 'STRAßE')"""
+    return "".join(c.upper() if len(c.upper()) == 1 and c.upper().lower() == c else c for c in s)
 
 
 def gen_input(rng, decl, p_absent=0.25, p_extra=0.3, value_mix=(0.6, 0.25, 0.15)):
